@@ -45,8 +45,9 @@ theorem queue_mutex_held_across_send :
 theorem listeners_keep_no_state :
     (Gen.accessTable.filter fun a =>
       (a.ty == "StatsDUDPListener" || a.ty == "StatsDTCPListener" || a.ty == "StatsDUnixgramListener") && a.write && a.method != "SetEventHandler") = [] ∧
-    ((rowsOf "StatsDTCPListener" "HandleConn").any fun a => a.loc == "StatsDTCPListener.LineParser.LineToEvents()") = true ∧
-    ((rowsOf "StatsDUDPListener" "HandlePacket").any fun a => a.loc == "StatsDUDPListener.Relay.RelayLine()") = true := by
+    -- (non-vacuity: the three types are in the table, with reads)
+    (["StatsDUDPListener", "StatsDTCPListener", "StatsDUnixgramListener"].all fun t =>
+      Gen.accessTable.any fun a => a.ty == t && !a.write) = true := by
   decide +kernel
 
 end SE.Gen.Tie
